@@ -272,6 +272,9 @@ class PyFlow:
         method_of: Optional[Callable[[str, str], Optional[ast.FunctionDef]]] = None,
         inline_filter: Optional[Callable[[str, ast.FunctionDef], bool]] = None,
         no_havoc: Sequence[str] = (),
+        consts: Optional[Dict[str, ast.AST]] = None,
+        unroll: int = 40,
+        typed: Optional[Dict[str, Dict[str, ast.FunctionDef]]] = None,
     ) -> None:
         self.funcs = dict(funcs or {})
         self.methods = dict(methods or {})
@@ -287,6 +290,10 @@ class PyFlow:
         self.method_of = method_of  # (receiver expression text, method name) -> function, for typed receivers
         self.inline_filter = inline_filter
         self.no_havoc = set(no_havoc)
+        self.consts = consts or {}  # NAME / self.NAME -> defining expression (module / class level literals)
+        self.unroll = unroll
+        self._const_busy: set = set()
+        self.typed = typed or {}  # receiver value (shown) -> methods of its class
 
     # ------------------------------------------------------------------ API
 
@@ -393,10 +400,22 @@ class PyFlow:
         if isinstance(st, (ast.For, ast.While)):
             return self.loop(st, p, depth)
         if isinstance(st, ast.Try):
-            p.notes.append("try: handlers not followed")
+            if st.handlers:
+                p.notes.append("try: handlers not followed")
             paths = self.block(st.body, [p], depth)
             paths = self.block(st.orelse, paths, depth) if st.orelse else paths
-            return self.block(st.finalbody, paths, depth) if st.finalbody else paths
+            if not st.finalbody:
+                return paths
+            out_: List[Path] = []
+            for q in paths:
+                # the finally block runs on every exit of the body
+                saved = (q.done, q.ret, q.ret_node)
+                q.done, q.ret, q.ret_node = None, None, None
+                for r in self.block(st.finalbody, [q], depth):
+                    if r.done is None:
+                        r.done, r.ret, r.ret_node = saved
+                    out_.append(r)
+            return out_
         if isinstance(st, ast.Break):
             p.done = "break"
             return [p]
@@ -434,6 +453,27 @@ class PyFlow:
         else:
             heads = [(p, C(0))]
         for q, it in heads:
+            rows_ = self._rows(it) if isinstance(st, ast.For) else None
+            if rows_ is not None and not st.orelse:
+                # a loop over a literal table / a constant range is unrolled
+                state = [q]
+                for row in rows_:
+                    nxt: List[Path] = []
+                    for s_ in state:
+                        if s_.done is not None:
+                            nxt.append(s_)
+                            continue
+                        self._bind_loop_target(st.target, row, s_)
+                        for r_ in self.block(st.body, [s_], depth):
+                            if r_.done == "continue":
+                                r_.done = None
+                            nxt.append(r_)
+                    state = nxt
+                for s_ in state:
+                    if s_.done == "break":
+                        s_.done = None
+                out.extend(state)
+                continue
             # variables assigned in the body are unknown inside and after the loop
             assigned = self._assigned_names(st.body)
             q.havoc += 1
@@ -472,6 +512,8 @@ class PyFlow:
                 r.guards = list(bp.guards)
                 r.regions = {k: set(v) for k, v in bp.regions.items()}
                 r.done, r.ret, r.ret_node = bp.done, bp.ret, bp.ret_node
+                if bp.done == "raise":
+                    r.effects.extend(e for e in bp.effects if e.kind == "raise")
                 r.notes.append("exit from inside a loop")
                 out.append(r)
             if isinstance(st, (ast.For, ast.While)) and st.orelse:
@@ -479,6 +521,30 @@ class PyFlow:
             else:
                 out.append(q)
         return out
+
+    def _rows(self, it: Poly) -> Optional[List[Poly]]:
+        """Elements of a literal tuple / range(const) iterable."""
+        a = single_atom(it)
+        if a is None:
+            return None
+        if a[0] == "tuple" and len(a[1]) <= self.unroll:
+            return list(a[1])
+        if a[0] == "call" and a[1] == "range" and len(a[2]) == 1:
+            n = a[2][0].const_value()
+            if n is not None and 0 <= n <= self.unroll:
+                return [C(i) for i in range(n)]
+        return None
+
+    def _bind_loop_target(self, t: ast.AST, v: Poly, q: Path) -> None:
+        if isinstance(t, ast.Name):
+            q.env[t.id] = v
+        elif isinstance(t, (ast.Tuple, ast.List)):
+            a = single_atom(v)
+            for i, x in enumerate(t.elts):
+                if a is not None and a[0] == "tuple" and i < len(a[1]):
+                    self._bind_loop_target(x, a[1][i], q)
+                else:
+                    self._bind_loop_target(x, Poly.atom(("item", v, i)), q)
 
     def _path_havocs(self, bp: Path) -> bool:
         return any(e.kind == "call" and e.sub == "havoc" for e in bp.effects) or any(e.kind == "loop" and any(self._path_havocs(x) for x in (e.sub or [])) for e in bp.effects)
@@ -529,6 +595,20 @@ class PyFlow:
         elif isinstance(t, (ast.Tuple, ast.List)):
             for i, x in enumerate(t.elts):
                 self._bind(x, Poly.atom(("item", v, i)), q, node)
+
+    def _const(self, name: str, p: Path) -> Optional[Poly]:
+        if name not in self.consts or name in self._const_busy:
+            return None
+        d = self.consts[name]
+        if not isinstance(d, (ast.Tuple, ast.List, ast.Constant, ast.Set, ast.Dict, ast.BinOp, ast.Name)):
+            return None
+        self._const_busy.add(name)
+        try:
+            q = Path()
+            r = self.ev(d, q, self.max_depth, no_effect=True)
+        finally:
+            self._const_busy.discard(name)
+        return r[0][1] if len(r) == 1 else None
 
     def _pure(self, e: ast.AST, q: Path) -> Poly:
         r = self.ev(e, q, self.max_depth, no_effect=True)
@@ -669,6 +749,16 @@ class PyFlow:
             if s is not None:
                 out.append((q, bool(s)))
                 continue
+            ta = single_atom(v)
+            if ta is not None and ta[0] == "tpl" and any(isinstance(x, str) and x for x in ta[1]):
+                out.append((q, True))
+                continue
+            if ta is not None and ta[0] == "tuple":
+                out.append((q, bool(ta[1])))
+                continue
+            if ta is not None and ta[0] == "new":
+                out.append((q, True))
+                continue
             if _is_none(v):
                 out.append((q, False))
                 continue
@@ -774,11 +864,18 @@ class PyFlow:
         if isinstance(e, ast.Name):
             if e.id in p.env:
                 return [(p, p.env[e.id])]
+            cv = self._const(e.id, p)
+            if cv is not None:
+                return [(p, cv)]
             return [(p, V(self.names.get(e.id, e.id)))]
         if isinstance(e, ast.Attribute):
             d = src_of(e)
             if d in p.env:
                 return [(p, p.env[d])]
+            if isinstance(e.value, ast.Name) and e.value.id in self.self_names:
+                cv = self._const(e.attr, p)
+                if cv is not None:
+                    return [(p, cv)]
             if isinstance(e.value, ast.Name) and e.value.id not in p.env:
                 return [(p, V(self.names.get(d, d)))]
             out = []
@@ -849,6 +946,27 @@ class PyFlow:
             return out
         if isinstance(e, ast.Call):
             return self.call(e, p, depth, stmt_pos, no_effect)
+        if isinstance(e, (ast.GeneratorExp, ast.ListComp)) and len(e.generators) == 1 and not e.generators[0].ifs and not e.generators[0].is_async:
+            g = e.generators[0]
+            out = []
+            for q, it in self.ev(g.iter, p, depth, no_effect=no_effect):
+                rows = self._rows(it)
+                if rows is None:
+                    out.append((q, Poly.atom(("comp", src_of(e.elt), src_of(g.target), it))))
+                    continue
+                acc: List[Tuple[Path, List[Poly]]] = [(q, [])]
+                for row in rows:
+                    nxt = []
+                    for q2, vals in acc:
+                        saved = dict(q2.env)
+                        self._bind_loop_target(g.target, row, q2)
+                        for q3, v in self.ev(e.elt, q2, depth, no_effect=no_effect):
+                            q3.env = {**q3.env, **{k: saved[k] for k in saved}} if False else q3.env
+                            nxt.append((q3, vals + [v]))
+                    acc = nxt
+                for q2, vals in acc:
+                    out.append((q2, Poly.atom(("tuple", tuple(vals)))))
+            return out
         if isinstance(e, ast.Lambda):
             return [(p, opaque("lambda:" + src_of(e)))]
         return [(p, opaque(src_of(e)))]
@@ -864,6 +982,19 @@ class PyFlow:
                 return p.funcs[f.id], None
             if f.id in self.funcs:
                 return self.funcs[f.id], None
+        if isinstance(f, ast.Attribute) and self.typed and f.attr not in self.primitives:
+            rv = self.ev(f.value, p, self.max_depth, no_effect=True)
+            if len(rv) == 1:
+                ra = single_atom(rv[0][1])
+                if ra is not None and ra[0] == "var" and ra[1] in self.typed:
+                    ms = self.typed[ra[1]]
+                    if f.attr in ms and (self.inline_filter is None or self.inline_filter(f.attr, ms[f.attr])):
+                        fn = ms[f.attr]
+                        if any(isinstance(d, ast.Name) and d.id == "staticmethod" for d in fn.decorator_list):
+                            return fn, None
+                        return fn, rv[0][1]
+                    if ra[1] in self.typed:
+                        return None
         if isinstance(f, ast.Attribute) and isinstance(f.value, ast.Name) and f.value.id in self.self_names:
             if f.attr in self.primitives:
                 return None
@@ -1063,7 +1194,11 @@ class PyFlow:
                 pos = vals[: len(e.args)]
                 kws = {k.arg: v for k, v in zip([k for k in e.keywords if k.arg is not None], vals[len(e.args):])}
                 name = fname or src_of(f)
-                val = Poly.atom(("call", name, tuple(([recv] if recv is not None else []) + pos + [Poly.atom(("kw", k, v)) for k, v in sorted(kws.items())])))
+                kwa = [Poly.atom(("kw", k, v)) for k, v in sorted(kws.items())]
+                if recv is not None:
+                    val = Poly.atom(("mcall", name, tuple([recv] + pos + kwa)))
+                else:
+                    val = Poly.atom(("call", name, tuple(pos + kwa)))
                 is_pure = (isinstance(f, ast.Name) and name in self.pure) or name in self.pure
                 if not no_effect and not is_pure:
                     hv = any(isinstance(a, ast.Name) and a.id in self.havoc_on for a in e.args) and name not in self.no_havoc
